@@ -245,5 +245,10 @@ def restart_and_compare(h):
         down_with_apps=any(v[2] and H.servers.get(s, {}).get('state') == 'down' for s, v in ref.items()),
         lease_or_once=any(H.apps[a]['lease'] or H.apps[a]['once'] for v in ref.values() for a in v[2]),
         identity=any(e[0] is not None for v in ref.values() for e in v[2].values()),
-        restarted=any(v[1] == 'restarted-since-placed' for v in ref.values()))
+        restarted=any(v[1] == 'restarted-since-placed' for v in ref.values()),
+        # the successor slotted the server for a reboot before the recorded lease ends (e.g. the partition's
+        # reboot schedule was declared meanwhile): the record must be restored all the same
+        lease_outlives_new_slot=any(
+            v[0] and e[1] and H.apps.get(a, {}).get('lease') and s in m.servers and e[1] > m.servers[s].valid_until
+            for s, v in ref.items() for a, e in v[2].items()))
     return out
